@@ -28,6 +28,14 @@ CHECKS = {
    text="The Go race detector (ThreadSanitizer) runs on the instrumented library under simulator-chosen schedules: 2-4 tasks call tape-chosen public methods of one shared Queue(+Distributor, iterators), Deque(+Distributors, six producers/iterators), fun.WaitGroup, erc.Collector (incl. using a Resolve()d error and an Iterator while others Add), adt.Map/Atomic/Synchronized/Once/Pool, synchronized dt.Set, and Lock/Once/Limit wrappers around callbacks that touch unsynchronised counters; a second family runs every drawn pair of methods as a two-task workload. The scheduler's own hand-offs are hidden from TSan (RaceDisable + go:norace in simrt), so it sees exactly the program's happens-before edges. Oracle: zero reports with a tychoish/fun frame on both access stacks.",
    note="Trusts ThreadSanitizer (no false positives; detects unordered conflicting accesses that a run executes). A report without a fun frame on both sides is treated as a harness error (exit 2). pubsub.Broker drivers are part of the C09 build-out.",
    tech="deterministic simulation in race mode: Go race detector under seeded one-task-at-a-time schedules over the AST-instrumented copy"),
+ "C01": dict(cat="exploration", ref="§2 C01",
+   text="Fault-free runs of every fan-out/fan-in construct (Split, ProcessParallel, itertool.ParallelForEach, itertool.Worker, Map, ParallelBuffer, MergeIterators, GenerateParallel, concurrent ReadOne on one channel iterator, Buffer) over inputs of length 0..12 from slice/channel/generator sources, 1..4 workers, buffers 0..3, user callbacks that yield 1-3 times, under seeded schedules; at quiescence the observed multiset must equal the input multiset and the sequence must equal it for Buffer and single-worker forms.",
+   note="A run that does not terminate is C04's subject and is inconclusive here except for duplicates; the terminal error value of the consumers is C03's subject.",
+   tech=TECH + "; multiset/sequence equality oracle"),
+ "C04": dict(cat="fault_enumeration", ref="§2 C04",
+   text="Every goroutine-backed construct (the C01 set plus Chain, MergeSlices, MergeSliceIterators, BufferedChannel, dt.Map and adt.Map iterators) is stopped by a separate task at a tape-chosen step in one of the modes exhaust / Close / cancel / Close-then-cancel / cancel-then-Close / Close twice, with per-consumer cut points 0..n+1, so that the stop races in-flight sends. At quiescence: the stop action returned, every consumer's ReadOne returned, a finite input ended in io.EOF, and the simulator's task table shows no live task spawned from a go statement inside tychoish/fun.",
+   note="Callback-style constructs and BufferedChannel (a bare channel has no Close) are stopped by cancellation only. Abandoning an output without Close is documented as leaking and is not generated.",
+   tech=TECH + "; stop-mode x cut-point fault matrix, quiescence + task-table leak oracle"),
 }
 NA = [
  ("C16", "dt.List/dt.Stack are single-goroutine data structures: the property quantifies over operation sequences only; there is no schedule, clock, fault or interleaving for a simulator to own (pure model-based testing target)."),
